@@ -41,7 +41,8 @@ REQUIRED_PROBES = ['refund_at_deadline', 'refund_deadline_minus_1', 'claim_after
                    'hash_size_32', 'hash_size_64', 'step_between_reads', 'corrupt_sig',
                    'corrupt_preimage', 'corrupt_pubkey', 'corrupt_selector', 'threshold_per_call',
                    'default_timestamp', 'crafted_witness', 'witness_with_code', 'witness_ending_in_return',
-                   'lock_form_bytes', 'lock_form_resrc', 'lock_form_redec', 'explicit_limits'] + \
+                   'lock_form_bytes', 'lock_form_resrc', 'lock_form_redec', 'explicit_limits',
+                   'clock_read_failed'] + \
     ['lock_wrapped_' + x for x in sorted(set(WRAPS) - {'none'})]
 
 LKINDS = ['htlc_sha', 'htlc_shake', 'htlc2_sha', 'htlc2_shake', 'ptlc', 'ptlc_tweak']
@@ -148,6 +149,9 @@ def gen_step(rng, cell, oid, out, clocks, vname, thr, fault_free):
                                    'delta_us': -rng.choice([1, 2, 20, max(thr, 1)]) * 1_000_000})
         elif r == 2:
             step['faults'].append({'at_read': 0, 'kind': 'freeze'})
+        elif r == 3 and rng.chance(1, 2):
+            # the clock system call itself fails, once, during the validation
+            step['faults'].append({'at_read': rng.below(2), 'kind': 'fail'})
         if rng.chance(1, 6):
             step['corrupt'] = {'item': rng.below(3), 'bit': rng.below(520)}
         elif rng.chance(1, 7):
@@ -502,11 +506,17 @@ def execute(plan, run):
         finally:
             reads = CLOCK.end_call()
         obs = ACCEPT if r is True else REJECT if r is False else 'BAD:' + str(r)
+        clock_failed = bool(CLOCK.last_call.get('would'))
+        if clock_failed:
+            # judged with the value the failed read would have returned; the validation
+            # may fail as a whole, but must not accept what that window excludes
+            run.probe('clock_read_failed')
+            reads = CLOCK.last_call['all']
         if step.get('default_t'):
             run.probe('default_timestamp')
             step = dict(step, t=int(reads[0]) if reads else 0)
         mdl = model(out, created, keys, items, step['t'], reads, step['thr'])
-        if step.get('suffix') and mdl == ACCEPT:
+        if (step.get('suffix') or clock_failed) and mdl == ACCEPT:
             mdl = EITHER        # soundness only (see oracle.SUFFIXES)
         t = step['t']
         lk = out['kind']
@@ -532,7 +542,7 @@ def execute(plan, run):
         native = step['wkind'] == NATIVE[lk] or (
             lk.startswith('ptlc') and step['wkind'] == 'ptlc_refund')
         tiny = lk.endswith('shake') and out['hash_size'] < 16
-        if native and not cor and not tiny and not step.get('suffix'):
+        if native and not cor and not tiny and not step.get('suffix') and not clock_failed:
             who = step['actor']
             flag_ok = (int(step['flag'], 16) & ~int(out['allowed'], 16) & 0xff) == 0
             if lk.startswith('htlc'):
